@@ -95,7 +95,13 @@ pub fn case_for(tier: &str, seed: u64, idx: u64) -> Case {
     let deep_max = if tier == "quick" { 12 } else { 16 };
     let kind = idx % 10;
     let (class, text, number) = match kind {
-        0 | 1 => ("random".to_string(), random_unicode(&mut rng, 64), 0.0),
+        0 => ("random".to_string(), random_unicode(&mut rng, 64), 0.0),
+        // every built-in function with extreme arguments, and overflowing arithmetic
+        1 if idx % 40 == 1 => {
+            let t = if rng.gen_bool(0.8) { super::c08::extreme_call(&mut rng) } else { super::c08::overflow_formula(&mut rng) };
+            ("extreme-call".to_string(), t, 0.0)
+        }
+        1 => ("random".to_string(), random_unicode(&mut rng, 64), 0.0),
         2 | 3 | 4 => {
             let d = Dialect::new(lang, locale);
             let tree = fgen::random_tree(&mut rng, 3);
@@ -118,6 +124,8 @@ pub fn case_for(tier: &str, seed: u64, idx: u64) -> Case {
         }
         _ => ("random-long".to_string(), random_unicode(&mut rng, 400), 0.0),
     };
+    // English names and separators are what the generator of this class prints
+    let (lang, locale) = if class == "extreme-call" { ("en", "en") } else { (lang, locale) };
     Case { class, text, number, lang, locale }
 }
 
@@ -326,6 +334,15 @@ fn run(ctx: &Ctx) -> Stats {
 }
 
 fn replay(_ctx: &Ctx, case: &Value) -> Vec<Violation> {
+    // committed findings spell the input out, so they do not depend on the generator's stream
+    if let Some(text) = case.get("text").and_then(|t| t.as_str()) {
+        let class = case.get("class").and_then(|t| t.as_str()).unwrap_or("extreme-call").to_string();
+        let c = Case { class: class.clone(), text: text.to_string(), number: 0.0, lang: "en", locale: "en" };
+        return match exercise(&c) {
+            Err((api, p)) => vec![Violation { check: "panic".into(), sig: sig_for(&api, &class, &crate::util::panic_site(&p)), detail: format!("{api} panicked on {text:?}: {p}"), case: case.clone() }],
+            Ok(()) => vec![],
+        };
+    }
     let tier = case.get("tier").and_then(|t| t.as_str()).unwrap_or("quick").to_string();
     let seed = case.get("seed").and_then(|t| t.as_u64()).unwrap_or(0);
     let i = case.get("index").and_then(|t| t.as_u64()).unwrap_or(0);
